@@ -5,7 +5,8 @@ import json
 import sys
 from contextlib import redirect_stdout
 
-sys.path.insert(0, "/repo/src")
+import os
+sys.path.insert(0, os.path.join(os.environ.get("VERIF_REPO", "/repo"), "src"))
 
 
 def strip_time(text):
